@@ -29,16 +29,39 @@ pub enum Payload {
     /// not a value of the crate: one direct `io::Write::write` (then `flush`) on the writer
     Raw(Vec<u8>),
     /// a user-defined `WriteToHeader` value that appends the bytes and returns the given number
-    /// (composite payloads return what they like: a count of items, 0, ...)
-    Custom(Vec<u8>, usize),
+    /// (composite payloads return what they like: a count of items, 0, ...); the last field says
+    /// how its `write_to` obtains the bytes: 0 = it has them, 1 = by calling `to_bytes()` on its
+    /// parts (a nested conversion, as a composite TLV does to learn its length), 2 = by writing its
+    /// parts into writers of its own
+    Custom(Vec<u8>, usize, u8),
 }
 
 /// See `Payload::Custom`.
-pub struct CustomWrite<'a>(pub &'a [u8], pub usize);
+pub struct CustomWrite<'a>(pub &'a [u8], pub usize, pub u8);
 
 impl<'a> WriteToHeader for CustomWrite<'a> {
     fn write_to(&self, writer: &mut Writer) -> io::Result<usize> {
-        io::Write::write_all(writer, self.0)?;
+        // whichever way the bytes are obtained, they reach `writer` in ONE write
+        let step = (1 + self.0.len() / 3).min(60000);
+        match self.2 {
+            0 => io::Write::write_all(writer, self.0)?,
+            1 => {
+                let mut body = self.0[..0].to_bytes()?;
+                for part in self.0.chunks(step) {
+                    body.extend(part.to_bytes()?);
+                }
+                io::Write::write_all(writer, &body)?
+            }
+            _ => {
+                let mut body = Vec::new();
+                for part in self.0.chunks(step) {
+                    let mut inner = Writer::default();
+                    part.write_to(&mut inner)?;
+                    body.extend(inner.finish());
+                }
+                io::Write::write_all(writer, &body)?
+            }
+        }
         Ok(self.1)
     }
 }
@@ -156,7 +179,7 @@ pub fn payload_json(p: &Payload) -> Value {
         Payload::Tlvs(b, 0) => json!({"ty": "tlvs", "v": rl(b)}),
         Payload::Tlvs(b, adv) => json!({"ty": "tlvs", "v": rl(b), "adv": adv}),
         Payload::Raw(b) => json!({"ty": "raw", "v": rl(b)}),
-        Payload::Custom(b, ret) => json!({"ty": "custom", "v": rl(b), "ret": ret}),
+        Payload::Custom(b, ret, nest) => json!({"ty": "custom", "v": rl(b), "ret": ret, "nest": nest}),
     }
 }
 
@@ -169,7 +192,7 @@ pub fn payload_from(v: &Value) -> Payload {
         "type" => Payload::Type(type_from(v["name"].as_str().unwrap())),
         "tlvs" => Payload::Tlvs(unrl(&v["v"]), v.get("adv").and_then(|a| a.as_u64()).unwrap_or(0) as usize),
         "raw" => Payload::Raw(unrl(&v["v"])),
-        "custom" => Payload::Custom(unrl(&v["v"]), v["ret"].as_u64().unwrap_or(0) as usize),
+        "custom" => Payload::Custom(unrl(&v["v"]), v["ret"].as_u64().unwrap_or(0) as usize, v["nest"].as_u64().unwrap_or(0) as u8),
         ty => Payload::Int { ty: ty.to_string(), neg: v["neg"].as_bool().unwrap(), mag: unflat(&v["mag"]) },
     }
 }
@@ -264,7 +287,7 @@ fn with_dyn<R>(p: &Payload, f: &mut dyn FnMut(&dyn WriteToHeader) -> R) -> R {
         Payload::Type(t) => f(t),
         Payload::Tlvs(b, adv) => f(&advanced(b, *adv)),
         Payload::Raw(b) => f(&RawWrite(b.as_slice())),
-        Payload::Custom(b, ret) => f(&CustomWrite(b.as_slice(), *ret)),
+        Payload::Custom(b, ret, nest) => f(&CustomWrite(b.as_slice(), *ret, *nest)),
     }
 }
 
@@ -308,7 +331,7 @@ fn write_one(b: Builder, p: &Payload) -> io::Result<Builder> {
         Payload::Type(t) => b.write_payload(*t),
         Payload::Tlvs(v, adv) => b.write_payload(advanced(v, *adv)),
         Payload::Raw(v) => b.write_payload(RawWrite(v.as_slice())),
-        Payload::Custom(v, ret) => b.write_payload(CustomWrite(v.as_slice(), *ret)),
+        Payload::Custom(v, ret, nest) => b.write_payload(CustomWrite(v.as_slice(), *ret, *nest)),
     }
 }
 
@@ -352,7 +375,7 @@ fn write_many(b: Builder, ps: &[Payload], lazy: bool) -> io::Result<Builder> {
             Payload::Type(t) => Held::Type(*t),
             Payload::Tlvs(v, adv) => Held::Tlvs(advanced(v, *adv)),
             Payload::Raw(v) => Held::Raw(RawWrite(v.as_slice())),
-            Payload::Custom(v, ret) => Held::Custom(CustomWrite(v.as_slice(), *ret)),
+            Payload::Custom(v, ret, nest) => Held::Custom(CustomWrite(v.as_slice(), *ret, *nest)),
         })
         .collect();
     let refs: Vec<&dyn WriteToHeader> = held
@@ -1211,13 +1234,14 @@ pub fn generate_builder(name: &str, count: usize, rng: &mut Rng, out: &mut dyn W
                 let mut ops = vec![ctor];
                 let two_tlvs: Vec<u8> = vec![4, 0, 1, 0xAA, 0x21, 0, 2, 1, 2];
                 let big: Vec<u8> = { let mut v = vec![4u8, 0x9c, 0x40]; v.extend(vec![0x11u8; 40000]); let mut w = v.clone(); w.extend(v); w };
+                let nest = ((i / 6) % 3) as u8;
                 let custom = match i % 6 {
-                    0 => Payload::Custom(two_tlvs.clone(), 2),
-                    1 => Payload::Custom(b"text written with write!".to_vec(), 0),
-                    2 => Payload::Custom(two_tlvs.clone(), 70000),
-                    3 => Payload::Custom(big.clone(), 2),
-                    4 => Payload::Custom(vec![], 17),
-                    _ => Payload::Custom(vec![7u8; 1 + rng.below(40) as usize], rng.below(100) as usize),
+                    0 => Payload::Custom(two_tlvs.clone(), 2, nest),
+                    1 => Payload::Custom(b"text written with write!".to_vec(), 0, nest),
+                    2 => Payload::Custom(two_tlvs.clone(), 70000, nest),
+                    3 => Payload::Custom(big.clone(), 2, nest),
+                    4 => Payload::Custom(vec![], 17, nest),
+                    _ => Payload::Custom(vec![7u8; 1 + rng.below(40) as usize], rng.below(100) as usize, nest),
                 };
                 if rng.chance(1, 3) { ops.push(Op::SetLen(Some(*rng.pick(&[0u16, 9, 65535])))); }
                 if rng.chance(1, 2) { ops.push(Op::Write(random_payload(rng, false))); }
@@ -1635,6 +1659,28 @@ pub fn generate_writer(name: &str, count: usize, rng: &mut Rng, out: &mut dyn Wr
                 }
                 ps.push(Payload::Raw(Vec::new()));
                 n += run_writer_persistent(&format!("wraw-{}", i), &json!({"g": "wraw"}), &ps, out);
+            }
+        }
+        "wcustom" => {
+            // user-defined values (the trait is public) whose write_to obtains its bytes by
+            // converting / writing crate values itself - a nested to_bytes() or a writer of its
+            // own inside a running conversion - next to ordinary values, into one writer
+            for i in 0..count {
+                let nest = (i % 3) as u8;
+                let body: Vec<u8> = match (i / 3) % 5 {
+                    0 => vec![0x20, 0, 7, 1, 0, 0, 0, 0, 0x21, 0, 0, 0x22, 0, 2, b'h', b'2'],
+                    1 => Vec::new(),
+                    2 => vec![rng.next() as u8; 1 + rng.below(300) as usize],
+                    3 => { let mut v = vec![4u8, 0x75, 0x30]; v.extend(vec![0u8; 30000]); v }
+                    _ => { let v = ssl_value(i); let mut t = vec![0x20u8]; t.extend((v.len() as u16).to_be_bytes()); t.extend(v); t }
+                };
+                let ret = body.len();
+                let mut ps = Vec::new();
+                if rng.chance(1, 2) { ps.push(random_payload(rng, false)); }
+                ps.push(Payload::Custom(body, ret, nest));
+                if rng.chance(1, 2) { ps.push(random_payload(rng, false)); }
+                let pre: Vec<u8> = if i % 2 == 0 { Vec::new() } else { vec![0xEE; 1 + rng.below(20) as usize] };
+                n += run_writer(&format!("wcustom-{}", i), &json!({"g": "wcustom"}), &pre, &ps, out);
             }
         }
         other => panic!("unknown writer generator {}", other),
